@@ -74,19 +74,24 @@ def delaySet (d : Nat) (st : DelaySt) (nd : Nat) : Option (Nat × DelaySt) :=
     if d - nd < cdskip then none
     else some (nd, { currentDelay := st.currentDelay - cdskip, skip := (d - nd) - cdskip })
 
-/-- Delay with its control call: state = (configured delay, block state, pending `set_delay`). The harness
-applies a pending call at the start of the next `work()`. -/
-def delayCtlWork (s : Nat × DelaySt × Option Nat) (v : View) : (Nat × DelaySt × Option Nat) × Out :=
-  match s.2.2 with
-  | none => let r := delayWork s.2.1 v; ((s.1, r.1, none), r.2)
-  | some nd =>
-    match delaySet s.1 s.2.1 nd with
-    | none => (s, noOut v .panic)
-    | some (d', st') => let r := delayWork st' v; ((d', r.1, none), r.2)
+/-- apply the pending `set_delay` calls in order -/
+def delaySetAll : Nat → DelaySt → List Nat → Option (Nat × DelaySt)
+  | d, st, [] => some (d, st)
+  | d, st, nd :: rest =>
+    match delaySet d st nd with
+    | none => none
+    | some (d', st') => delaySetAll d' st' rest
+
+/-- Delay with its control call: state = (configured delay, block state, pending `set_delay` calls, oldest
+first). The harness applies the pending calls at the start of the next `work()`. -/
+def delayCtlWork (s : Nat × DelaySt × List Nat) (v : View) : (Nat × DelaySt × List Nat) × Out :=
+  match delaySetAll s.1 s.2.1 s.2.2 with
+  | none => (s, noOut v .panic)
+  | some (d', st') => let r := delayWork st' v; ((d', r.1, []), r.2)
 
 def delayCtlBlock (delay : Nat) : Block :=
-  { σ := Nat × DelaySt × Option Nat, init := (delay, ⟨delay, 0⟩, none), work := delayCtlWork
-    eof := fun _ v => macroEof v, poke := fun s nd => (s.1, s.2.1, some nd) }
+  { σ := Nat × DelaySt × List Nat, init := (delay, ⟨delay, 0⟩, []), work := delayCtlWork
+    eof := fun _ v => macroEof v, poke := fun s nd => (s.1, s.2.1, s.2.2 ++ [nd]) }
 
 /-! ### RationalResampler -/
 
